@@ -107,6 +107,7 @@ type Frame struct {
 	specBase *State
 	rets     []*retInfo
 	targetCache map[*Clause][]*Clause
+	site     ssa.Instruction // call instruction whose callrequires/callassumes clause is being evaluated (its locals are nameable)
 }
 
 func NewExec(P *Program, tier string) *Exec {
@@ -1353,6 +1354,24 @@ func (x *Exec) assumeWF(g *Term, v *Term, t types.Type, st *State) {
 		if tup, ok := t.(*types.Tuple); ok {
 			for i, a := range v.args {
 				x.assumeWF(g, a, tup.At(i).Type(), st)
+			}
+		}
+		return
+	}
+	// a symbolic struct value (a call result, a loaded struct): the type invariants of its slice, string and
+	// address fields (one level of nesting is enough for the structs passed by value in this code base)
+	if t != nil && !v.open && !x.ti.isLeaf(t) {
+		if u, ok := types.Unalias(t).Underlying().(*types.Struct); ok && u.NumFields() <= 16 {
+			s := x.ti.structSort(types.Unalias(t), u)
+			if v.sort == s {
+				for i := 0; i < u.NumFields(); i++ {
+					ft := u.Field(i).Type()
+					fs := x.ti.sortOf(ft)
+					switch fs {
+					case SSlice, SStr, "Addr", "AddrPort", "Prefix":
+						x.assumeWF(g, c.Sel(fmt.Sprintf("%s_f%d", s, i), fs, v), ft, st)
+					}
+				}
 			}
 		}
 	}
